@@ -23,6 +23,9 @@ ENGINES = [
                        "SQLAlchemy events, enumerated over every point of a workload"},
     {"name": "models", "path": "vlib/checks", "serves_properties": ["C13", "C14", "C15", "C17", "C18", "C19", "C24", "C25", "C37"],
      "kind_free_text": "offline checkers and relation monitors over the real pure functions"},
+    {"name": "threads", "path": "vlib/thr.py", "serves_properties": ["C10", "C11"],
+     "kind_free_text": "thread interleaving explorer: sys.monitoring LINE events on selected code objects park a chosen "
+                       "thread at a chosen line (systematic single preemption) or inject seeded yields (stress)"},
     {"name": "io", "path": "vlib/checks", "serves_properties": ["C04", "C16", "C29", "C30", "C31", "C32", "C34", "C35", "C36"],
      "kind_free_text": "round-trip / cross-process differential monitors"},
 ]
@@ -191,6 +194,13 @@ reg("C38", "wf+ctl", "differential monitor on real sub-schedulers with database 
     "cache_scope and check_valid varied over repeated executions on one file database; outcomes are compared with the "
     "reference interpreter, job ancestry / execution ids are read from the database, and check_cache is wrapped to "
     "see which cache result kind is used for the subrun task.", "Local executors; shared SQLite file via forwarded config.")
+reg("C11", "threads", "history monitor on the real JobArrayer and its monitor thread under sys.monitoring-driven preemption",
+    "The real JobArrayer runs with its real monitor thread; jobs carry unique ids and the submit / on_error callbacks "
+    "record a hand-off history.  One preemption is placed at every statement line (1st..3rd arrival) of the monitor-side "
+    "methods (adding thread acts while the monitor is parked) and of add_job (monitor polls while the adder is parked), "
+    "plus seeded yield-injection stress; the history is checked for exactly-once hand-off, homogeneous and size-legal "
+    "batches, a silent on_error and num_pending == jobs held at quiescence.",
+    "Line-granular preemption (CPython switches between bytecodes; intra-line windows only via stress). Single add_job caller.")
 
 
 def build():
